@@ -147,6 +147,8 @@ def cases(tier, seed):  # noqa: C901
         out.append({"kind": "state", "name": name})
     for name in STALE_KINDS:
         out.append({"kind": "stale", "name": name})
+    for order in ("RPRP", "PRP"):
+        out.append({"kind": "switch", "order": order})
     for st in (["valid", "cold", "empty-Q", "D-half"] if thorough else ["valid", "empty-Q"]):
         out.append({"kind": "cli", "state": st})
     for which in ("D", "Q", "DQ"):
@@ -1052,6 +1054,48 @@ def _case_stale_body(case, ctx, kind, data, base_key):
         ctx.ok(["stale", kind_full], sample=dict(what, visible_in_digest=visible))
 
 
+def _case_switch(case, ctx):
+    """One cache folder, the data configuration alternates between 'standard data only' and 'standard + restricted data'
+    (its own defaults file and an extra device): whatever the folder holds from the other configuration, every start
+    answers like a start of ITS configuration on an empty cache folder."""
+    data = _scratch_data(ctx)
+    env_r, _devfile = _extra_folder(ctx, "restricted", data)
+    root = env_r["SPSDK_RESTRICTED_DATA_FOLDER"]
+    text = _read(os.path.join(data, "common", "database_defaults.yaml")).decode()
+    for a, b in (("    size: 0x1000\n", "    size: 0x2000\n"), ("purpose: General Purpose Processor", "purpose: General Purpose Processos")):
+        if a in text:
+            os.makedirs(os.path.join(root, "data", "common"), exist_ok=True)
+            _write(os.path.join(root, "data", "common", "database_defaults.yaml"), text.replace(a, b, 1).encode())
+            break
+    else:
+        raise core.Inconclusive("no known edit site in database_defaults.yaml")
+    refs = {"P": _reference(ctx, data=data, key="ref-scratch")}
+    _S["extra_env"] = env_r
+    try:
+        refs["R"] = _reference(ctx, data=data, key="ref-switch-restricted")
+    finally:
+        _S.pop("extra_env", None)
+    if refs["R"]["digest"] == refs["P"]["digest"]:
+        raise core.Inconclusive("the restricted-data folder is not visible in the query digest: the case decides nothing")
+    wdir, cache = _prep(ctx, f"switch-{case['order']}", refs["P"], q="missing", d="missing")
+    ok = True
+    for step, which in enumerate(case["order"]):
+        if which == "R":
+            _S["extra_env"] = env_r
+        try:
+            r = _run({"mode": "digest", "queries": "full"}, cache, wdir, data)
+        finally:
+            _S.pop("extra_env", None)
+        ctx.count("configuration_switch_starts")
+        what = {"state": "stale:data-configuration-switched", "order": case["order"], "step": step,
+                "configuration": "standard + restricted data" if which == "R" else "standard data only"}
+        ok = _judge_child(ctx, r, refs[which], what) and ok
+    shutil.rmtree(refs["R"]["cache"], ignore_errors=True)
+    _S.pop(("ref-switch-restricted", "full"), None)
+    if ok:
+        ctx.ok(["switch", case["order"]], sample={"order": case["order"]})
+
+
 # -- entry points --------------------------------------------------------------------------------
 def _case_cli(case, ctx):
     ref = _reference(ctx)
@@ -1273,7 +1317,7 @@ def run_case(case, ctx):
     fn = {
         "warm": _case_warm, "crash_write": _case_crash_write, "crash_audit": _case_crash_audit,
         "prefix_inproc": _case_prefix_inproc, "prefix_real": _case_prefix_real, "state": _case_state,
-        "stale": _case_stale, "cli": _case_cli, "sched": _case_sched, "midlife": _case_midlife,
+        "stale": _case_stale, "switch": _case_switch, "cli": _case_cli, "sched": _case_sched, "midlife": _case_midlife,
     }.get(kind)
     if fn is None:
         raise core.Inconclusive(f"unknown case kind {kind}")
